@@ -49,6 +49,10 @@ pub fn check_case(ctx: &Ctx, st: &mut Stats, c: &Case, tag: &str) {
     if let Some(p) = &plan.path_arg {
         args.push(p.clone());
     }
+    if c.io == 0 && c.puzzle.len() % 2 == 1 {
+        // OUTPUT names the process's own standard output
+        args.push("/dev/stdout".into());
+    }
     if c.io == 2 {
         // the output file already exists and is longer than what will be written
         let _ = std::fs::write(&output, super::common::stale_content());
@@ -369,7 +373,8 @@ fn job(ctx: &Ctx, jb: usize, r2: u64, r3: u64, r4: u64) -> Stats {
     // r = 3 (empty / sparse) and r = 4: structural probes
     for i in 0..r4 {
         // (root 5: a 25 x 25 board, once per job in the thorough tier)
-        let root = if r4 > 4 && i == r4 - 1 { 5 } else if i % 2 == 0 { 3 } else { 4 };
+        // (quick: one root-5 board in the first job only)
+        let root = if (r4 > 4 || jb == 0) && i == r4 - 1 { 5 } else if i % 2 == 0 { 3 } else { 4 };
         let full = random_full_grid(&mut rng, root);
         let cells = root * root * root * root;
         let mut grid = vec![0usize; cells];
@@ -418,7 +423,7 @@ pub fn run(ctx: &Ctx) -> (Stats, Spec) {
         }
     }
     let spec = Spec {
-        rule: "root 1 exhaustively; root 2: the empty puzzle (288 grids) and random hint patterns (0-16 givens taken from valid grids, contradictory patterns incl. box-only conflicts, truncated and over-long inputs, puzzle texts spread over ~30 KiB of whitespace, 5 layouts with spaces/newlines/tabs/CRLF, 6 input channels (regular file, stdin at once / in small pieces, a named pipe or /dev/stdin as INPUT, file-to-file onto an existing longer file), 20 blank symbols incl. the double quote, multi-byte characters (·, □, ＿, é) and ASCII letters that are digits in a larger radix (a, b, e, g, A, F), ASCII and Unicode whitespace); root 3: puzzles with 30-60 givens derived from generated valid grids and the repository's example (exact model sets), sparse puzzles, root 4 and (thorough) root 5 by structural probes (same digit twice in a unit, two digits / no digit in a cell, givens enforced, a valid grid satisfies, near-misses falsify). Exact = all models enumerated, decoded through _c_is_d and compared as a set with an independent backtracking solver. distinct = (root, normalised givens); non-trivial = at least one given and one blank.".into(),
+        rule: "root 1 exhaustively; root 2: the empty puzzle (288 grids) and random hint patterns (0-16 givens taken from valid grids, contradictory patterns incl. box-only conflicts, truncated and over-long inputs, puzzle texts spread over ~30 KiB of whitespace, 5 layouts with spaces/newlines/tabs/CRLF, 6 input channels (regular file, stdin at once / in small pieces, a named pipe or /dev/stdin as INPUT, file-to-file onto an existing longer file), 20 blank symbols incl. the double quote, multi-byte characters (·, □, ＿, é) and ASCII letters that are digits in a larger radix (a, b, e, g, A, F), ASCII and Unicode whitespace); root 3: puzzles with 30-60 givens derived from generated valid grids and the repository's example (exact model sets), sparse puzzles, root 4 and root 5 (one 25 x 25 board [quick], one per worker [thorough]) by structural probes (same digit twice in a unit, two digits / no digit in a cell, givens enforced, a valid grid satisfies, near-misses falsify). Exact = all models enumerated, decoded through _c_is_d and compared as a set with an independent backtracking solver. distinct = (root, normalised givens); non-trivial = at least one given and one blank.".into(),
         assumptions: vec![
             "givens are digits between 1 and r^2; 0 and larger digits are outside the statement's domain and are not generated".into(),
             "rsbdd itself cannot solve even the 4x4 formula within minutes, so there is no engine cross-check here".into(),
